@@ -3,32 +3,55 @@ package verifx
 import (
 	"fmt"
 	"strconv"
+	"time"
 )
 
 // reaperSys binds spec/TurnReaper.tla to the real server: one 5-tuple that allocates, ends its allocation
 // and allocates again, while the moment at which the relay reader of each ended allocation learns that
 // its socket was closed is a step scheduled by the walk (MemConn.ErrGate).
 type reaperSys struct {
-	w    *World
-	step int
+	w      *World
+	step   int
+	c      string        // the model client: c1 (datagram listener) or s1 (stream listener)
+	park   bool          // the next OnAllocationCreated callback is held
+	parked chan struct{} // closed by CallbackDone
+	down   bool
 }
 
 func newReaperSys(meta Meta, seed int64) (Sys, error) {
 	life, _ := strconv.Atoi(meta.Extra["Life"])
+	c := "c1"
+	if meta.Extra["Stream"] == "TRUE" {
+		c = "s1"
+	}
 	m := Meta{
 		DefaultLife: life, PermTO: 300, ChanTO: 600, MaxLife: 3600, InboundMTU: 1600,
-		Fam: map[string]int{"A": 4}, ListenFam: map[string]int{"c1": 4}, Clients: []string{"c1"}, Users: []string{"u1"}, PeerPorts: []int{1},
+		Fam: map[string]int{"A": 4}, ListenFam: map[string]int{c: 4}, Clients: []string{c}, Users: []string{"u1"}, PeerPorts: []int{1},
 	}
 	w, err := NewWorld(m, seed)
 	if err != nil {
 		return nil, err
 	}
 	w.gen.gate = true
+	s := &reaperSys{w: w, c: c}
+	w.gate = func(point string) {
+		if point == "callout.alloccreated" && s.park {
+			s.park = false
+			<-s.parked // the operator's callback takes its time (the harness decides how long)
+		}
+	}
 
-	return &reaperSys{w: w}, nil
+	return s, nil
 }
 
 func (s *reaperSys) Close() {
+	if s.parked != nil {
+		select {
+		case <-s.parked:
+		default:
+			close(s.parked)
+		}
+	}
 	s.w.gen.mu.Lock()
 	for _, c := range s.w.gen.Order {
 		select {
@@ -47,13 +70,27 @@ func (s *reaperSys) Do(a map[string]any, wait func()) ([]Obs, error) {
 	var err error
 	switch a["a"] {
 	case "Allocate":
-		obs, err = s.w.Do(map[string]any{"a": "Allocate", "c": "c1", "u": "u1", "lr": -1, "tx": fmt.Sprintf("t%d", s.step), "rf": 0, "tk": "none"}, wait)
+		obs, err = s.w.Do(map[string]any{"a": "Allocate", "c": s.c, "u": "u1", "lr": -1, "tx": fmt.Sprintf("t%d", s.step), "rf": 0, "tk": "none"}, wait)
 	case "Refresh":
-		obs, err = s.w.Do(map[string]any{"a": "Refresh", "c": "c1", "u": "u1", "lr": -1, "rf": 0}, wait)
+		obs, err = s.w.Do(map[string]any{"a": "Refresh", "c": s.c, "u": "u1", "lr": -1, "rf": 0}, wait)
 	case "RefreshZero":
-		obs, err = s.w.Do(map[string]any{"a": "Refresh", "c": "c1", "u": "u1", "lr": 0, "rf": 0}, wait)
+		obs, err = s.w.Do(map[string]any{"a": "Refresh", "c": s.c, "u": "u1", "lr": 0, "rf": 0}, wait)
+	case "AllocateSlow":
+		s.park, s.parked = true, make(chan struct{})
+		obs, err = s.w.Do(map[string]any{"a": "Allocate", "c": s.c, "u": "u1", "lr": -1, "tx": fmt.Sprintf("t%d", s.step), "rf": 0, "tk": "none"}, wait)
+	case "CallbackDone":
+		close(s.parked)
+		wait()
+		obs, _ = s.w.collect("CallbackDone", s.c)
+	case "ServerClose":
+		_ = s.w.Srv.Close()
+		s.w.down, s.down = true, true
+		wait()
+		obs, _ = s.w.collect("ServerClose", s.c)
 	case "Advance":
-		obs, err = s.w.Do(map[string]any{"a": "Advance", "d": a["d"]}, wait)
+		time.Sleep(time.Duration(toInt(a["d"])) * time.Second) // (not through World.Do: no nonce traffic while a handler is parked)
+		wait()
+		obs, _ = s.w.collect("Advance", s.c)
 	case "ReaderExit":
 		g := toInt(a["g"])
 		s.w.gen.mu.Lock()
@@ -71,7 +108,7 @@ func (s *reaperSys) Do(a map[string]any, wait func()) ([]Obs, error) {
 		}
 		close(c.ErrGate)
 		wait()
-		obs, _ = s.w.collect("ReaderExit", "c1")
+		obs, _ = s.w.collect("ReaderExit", s.c)
 	default:
 		return nil, fmt.Errorf("unknown reaper action %v", a["a"])
 	}
@@ -93,6 +130,9 @@ func (s *reaperSys) Check(e Edge, obs []Obs) []Mismatch {
 			ms = append(ms, Mismatch{"reaper.out", fmt.Sprintf("unexpected %v", o)})
 		}
 	}
+	if want != nil && want["opt"] == true && got == nil {
+		want = nil // an answer that cannot be delivered any more
+	}
 	switch {
 	case want == nil && got != nil && got["cls"] == "ok":
 		ms = append(ms, Mismatch{"reaper.resp", fmt.Sprintf("spec: no answer; server answered %v success", got["m"])})
@@ -107,10 +147,32 @@ func (s *reaperSys) Check(e Edge, obs []Obs) []Mismatch {
 	}
 	ts, _ := e.TS.(map[string]any)
 	live, _ := ts["live"].(bool)
+	if s.down {
+		// after Server.Close: nothing is left -- no allocation, no open relay socket
+		open := 0
+		s.w.gen.mu.Lock()
+		for _, c := range s.w.gen.Order {
+			select {
+			case <-c.closed:
+			default:
+				open++
+			}
+		}
+		s.w.gen.mu.Unlock()
+		// (Manager.Close closes the allocations; each leaves the table when its relay reader notices, which is a step of
+		// its own in this walk: the count is judged once no straggler is left)
+		zs, _ := ts["zombies"].([]any)
+		n := s.w.Srv.AllocationCount()
+		if open != 0 || (len(zs) == 0 && n != 0) {
+			ms = append(ms, Mismatch{"reaper.state", fmt.Sprintf("after %v on the closed server: AllocationCount() = %d with %d stragglers left, %d relay sockets still open", canon(e.A), n, len(zs), open)})
+		}
+
+		return ms
+	}
 	pr := s.w.Project()
-	if pr.C["c1"].Live != live || (pr.Count == 1) != live {
+	if pr.C[s.c].Live != live || (pr.Count == 1) != live {
 		ms = append(ms, Mismatch{"reaper.state", fmt.Sprintf("after %v: the specification's allocation (generation %v) is live=%v, the server has %d allocations (this 5-tuple: %v)",
-			canon(e.A), ts["gen"], live, pr.Count, pr.C["c1"].Live)})
+			canon(e.A), ts["gen"], live, pr.Count, pr.C[s.c].Live)})
 	}
 	if !pr.Locks {
 		ms = append(ms, Mismatch{"locks", "a manager or allocation lock is held at a quiescent point"})
